@@ -593,7 +593,17 @@ OP(md_mgf) {
 	W(md_mgf(o, kl, msg, msg_len)); out_bytes(o, kl);
 	sim_sys_free(o);
 }
-OP(md_hmac) { W(md_hmac(buf, msg, msg_len, msg, 20)); out_bytes(buf, RLC_MD_LEN); }
+/* key lengths around the hash block size (a longer key is hashed first); key, message and tag in heap blocks of
+ * exactly their lengths */
+OP(md_hmac) {
+	static const size_t kls[10] = { 0, 1, 20, 32, 63, 64, 65, 127, 128, 200 };
+	size_t kl = kls[(B[5]->dp[0] >> 16) % 10], ml = (size_t)(B[5]->dp[0] >> 24) % 200;
+	uint8_t *k = (uint8_t *)sim_sys_malloc(kl ? kl : 1), *m = (uint8_t *)sim_sys_malloc(ml ? ml : 1), *o = (uint8_t *)sim_sys_malloc(RLC_MD_LEN);
+	for (size_t i = 0; i < kl; i++) k[i] = msg[(i * 7) % sizeof(msg)] ^ (uint8_t)i;
+	for (size_t i = 0; i < ml; i++) m[i] = msg[(i * 3 + 1) % sizeof(msg)];
+	W(md_hmac(o, m, ml, k, kl)); out_bytes(o, RLC_MD_LEN);
+	sim_sys_free(k); sim_sys_free(m); sim_sys_free(o);
+}
 OP(md_xmd) {
 	size_t kl = 1 + (size_t)(B[5]->dp[0] >> 8) % 200;
 	uint8_t *o = (uint8_t *)sim_sys_malloc(kl);
